@@ -80,7 +80,20 @@ func session(name string, nUser, nHandler, m int, pacing string, rng *rand.Rand)
 		}
 		s.LatestSrv()
 		if !s.Welcome("me", 5*time.Second) {
-			return nil, fmt.Errorf("registration did not complete on the second connection")
+			if s.Srv.IsClosed() || !s.C.Connected() {
+				return nil, fmt.Errorf("registration did not complete on the second connection")
+			}
+			// the connection is up, yet the lines the REGISTER handler handed to the client are not on the wire:
+			// record exactly that (sender "reg") and let OutTrace judge
+			rec := &sessionRec{Name: name, Senders: []senderRec{{S: "reg", Lines: []string{"NICK me", "USER ident 12 * :Real Name"}}}, Wire: []wireLine{}}
+			l, _ := s.Srv.Lines()
+			for i, x := range l {
+				if strings.HasPrefix(x, "NICK ") || strings.HasPrefix(x, "USER ") {
+					rec.Wire = append(rec.Wire, wireLine{S: "reg", I: len(rec.Wire) + 1, Text: x})
+				}
+				_ = i
+			}
+			return rec, nil
 		}
 	}
 	srv := s.Srv
